@@ -299,6 +299,19 @@ def sib_constructors(repo, tier="quick"):
     any_fi, any_call = list(regexes.values())[0][2:]
     (obs.append(ob_ok(oid, any_fi, any_call, construct="re.findall(%r, cgsmiles_str) in all three" % list(pats)[0], instance="regex", reason="levels are split identically")) if ok else
      obs.append(ob_fail(oid, any_fi, any_call, construct="level regexes %s" % sorted(pats), instance="regex", reason="the constructors split a CGsmiles string into levels differently")))
+    # the constructors and __init__ agree on the defaults of the options (documented: True)
+    for opt in ("last_all_atom", "legacy"):
+        vals = {}
+        for name in ("__init__", "from_string", "from_graph", "from_fragment_dicts"):
+            f2 = repo.function("resolve:MoleculeResolver." + name)
+            dflt = f2.defaults().get(opt)
+            vals[name] = ast.unparse(dflt) if dflt is not None else "<required>"
+        ok = set(vals.values()) == {"True"}
+        f0 = repo.function("resolve:MoleculeResolver.__init__")
+        (obs.append(ob_ok(oid, f0, construct="default of %s is True in __init__ and all three constructors" % opt, instance="default:" + opt,
+                          reason="the same call without the option means the same through every constructor (documented default: True)")) if ok else
+         obs.append(ob_fail(oid, f0, construct="defaults of %s: %s" % (opt, vals), instance="default:" + opt,
+                            reason="the constructors disagree on the default of %s (documented default: True): the same input resolves differently depending on the constructor" % opt)))
     # from_string: first element -> read_cgsmiles, the rest -> fragment strings
     fi = repo.function("resolve:MoleculeResolver.from_string")
     fl = fi.flow
